@@ -84,6 +84,11 @@ def render(x, leaves: Dict[str, str]) -> str:
         return f"({UNOPS[x[1]]}{render(x[2], leaves)})"
     if t == "cmp":
         return f"({render(x[2], leaves)} {CMPS[x[1]]} {render(x[3], leaves)})"
+    if t == "chain":   # a chained comparison a OP1 b OP2 c ...: each link compares NEIGHBOURING operands
+        out = render(x[2][0], leaves)
+        for op, e in zip(x[1], x[2][1:]):
+            out += f" {CMPS[op]} {render(e, leaves)}"
+        return f"({out})"
     raise ValueError(t)
 
 
@@ -109,7 +114,7 @@ def py_type(x) -> str:
         return {"fl": "float", "db": "float", "it": "int", "count": "int", "acc": "int"}[x[1]]
     if t == "int":
         return "int"
-    if t in ("bool", "cmp"):
+    if t in ("bool", "cmp", "chain"):
         return "bool"
     if t == "un":
         if x[1] == "Not":
@@ -565,6 +570,26 @@ def check(tier: str, seed: int, t0: float, build: core.BuildStatus) -> int:
                 continue
             if listed_only:
                 queue_oracle("value", backend, x, obs, obs["expr"], obs["type"], {"replay": replay})
+
+    # ---- 1a. chained comparisons: not among the listed operators, so refusing them is fine; an implementation that accepts
+    #          them computes what Python means (each link compares neighbouring operands) ----
+    chains = [["chain", ["Lt", "Lt"], [["int", 1], ["leaf", "db"], ["int", 5]]],
+              ["chain", ["LtE", "Lt"], [["int", 0], ["leaf", "it"], ["leaf", "db"]]],
+              ["chain", ["Gt", "Gt"], [["int", 8], ["leaf", "db"], ["leaf", "fl"]]],
+              ["chain", ["Lt", "Lt", "Lt"], [["int", 0], ["leaf", "fl"], ["leaf", "db"], ["int", 5]]],
+              ["chain", ["Lt", "NotEq"], [["leaf", "fl"], ["leaf", "db"], ["leaf", "it"]]],
+              ["chain", ["Eq", "Lt"], [["leaf", "it"], ["leaf", "it"], ["leaf", "db"]]]]
+    for x in chains:
+        bump("chain")
+        for backend in backends:
+            obs = observe_value(backend, x)
+            oc.evaluations += 1
+            distinct.add(json.dumps(x))
+            if "error" in obs:
+                continue   # refused: C09's subject
+            replay = {"kind": "value", "backend": backend, "expr": x, "query": obs["query"], "label": "chained comparison", "model": None,
+                      "implementation": {k: v for k, v in obs.items() if k != "query"}}
+            queue_oracle("value", backend, x, obs, obs["expr"], obs["type"], {"replay": replay})
 
     # ---- 1b. the same expressions after unrelated widening aggregates in the same row ----
     ctx_rows = [r for r in table_rows() if r["cls"] in ("binop", "unary", "compare") and (small_literals(r["expr"]) or contains(r["expr"], lambda n: n == ["leaf", "count"]))]
